@@ -195,8 +195,9 @@ def run_under_seeds(specs):
 
 def run(ctx):
     rng = random.Random(ctx.seed * 7919 + 15)
-    mc = tlc.require_ok(tlc.run("MC_Session.tla", session_cfg(3 if ctx.quick else 4, 2, 2), workers=16, timeout=3000),
-                        "model checking MC_Session")
+    mc = tlc.require_ok(tlc.run("MC_Session.tla", session_cfg(3 if ctx.quick else 4, 2, 2), workers=16, timeout=3000,
+                                coverage=True), "model checking MC_Session")
+    tlc.require_actions_taken(mc, ["DoNew", "DoApply", "DoGrow"], "MC_Session")
     fails, events, n_traces, tr_states, tr_trans = [], 0, 0, 0, 0
     # (R) long interleavings generated by TLC, replayed on shared real objects
     hists, sim = simulated_histories(40, 6 if ctx.quick else 120, seed=ctx.seed + 7)
